@@ -18,19 +18,21 @@ EXPLANATION = ("Props/C14.v: every PipeData execution ends with all three gorout
                "Handler model (Mux/Handler.v, shared with C02; every stream, target connection, goroutine and report channel explicit, arbitrary schedule "
                "and environment). Proved for every event list: a logical connection that is over (either side hung up or failed, session death, failed "
                "dial, refusal), with no dial in flight and none of its goroutines able to step, has its handler returned, no copy loop left (none blocked "
-               "on a report channel), its stream closed and its target connection closed - or, as long as muxHandler does not close it itself, held only "
-               "when the target hung up first (c14_handler_connection_reclaimed, c14_handler_target_left_only_after_target_eof); after the session has "
+               "on a report channel), its stream closed and its target connection closed (in a shape where muxHandler did not close it itself - the code "
+               "before 1ffd47e - it could be held only when the target hung up first: c14_handler_connection_reclaimed, "
+               "c14_handler_target_left_only_after_target_eof); after the session has "
                "died in any manner with any number of connections in any states, at quiescence the accept loop has exited and the footprint is zero "
                "(c14_handler_session_reclaimed); a terminal accept error ends the loop with its next step and an ended loop never steps again "
-               "(c14_handler_accept_exits, c14_handler_no_busy_loop); on the client, listener.HandleConnection leaves both ends closed and no goroutine "
-               "(c14_client_reclaimed). Refuted with computed witnesses: the upstream side closed only on io.EOF, unbuffered report channels, continue on "
-               "a terminal error (for every n), a refused stream left open (client and server view), the wrong side closed (direct forward), the leaked "
-               "slot. Switches read from the source by role (Gen/HandlerShape.v); compared token for token with the real code (c02h raw / cli).") + EXPLANATION_DNS
+               "(c14_handler_accept_exits, c14_handler_no_busy_loop); on the client, listener.HandleConnection - through the tunnel and piped directly to a "
+               "forward address alike - leaves both ends closed and no goroutine (c14_client_reclaimed). Refuted with computed witnesses: the upstream "
+               "side closed only on io.EOF, unbuffered report channels, continue on a terminal error (for every n), a refused stream left open (client "
+               "and server view), ConnectDirectly closing nothing after its pipe (the end whose own peer hung up first stays open for every "
+               "continuation), the wrong side closed (shows where nothing is closed after the pipe), the leaked slot. Switches read from the source by role (Gen/HandlerShape.v); compared token for token with the real code (c02h raw / cli).") + EXPLANATION_DNS
 TRUSTED = ["runtime.NumGoroutine / getrusage / /proc/self/fd as measurements", "kernel socket states (TIME_WAIT) are not observed",
            "DNS close model (Queue/Close.v): one reader and one writer per end, operations atomic; acknowledgements are events of the environment",
            "handler model: each statement group of the Go code is one atomic step; stream reads as smux v1.5.14 orders them (buffered data, peer's end-of-stream, "
-           "session error); a dial or a channel selection still in flight keeps its goroutine (hypotheses dial_settled / l_settled); the server's end of a target "
-           "connection whose target hung up first is not closed by the code (released by the runtime's finalizer): modelled as it is, tolerated by the oracle",
+           "session error); a dial or a channel selection still in flight keeps its goroutine (hypotheses dial_settled / l_settled)",
+           "whether socketace still holds its end of a direct-forward TCP connection after the forward target hung up is read once from /proc/net/tcp (state CLOSE_WAIT)",
            "goroutines of a case are counted from the goroutine profile by function name under a profiler label"]
 RUN_TIMEOUT = 3000
 
